@@ -32,9 +32,13 @@ func PlacementFile(pkg, goName string, queryKinds []spec.T, cards []spec.Card, w
 	f.Services = []*spec.Service{svc}
 	var cases []*PlaceCase
 	n := 0
+	number64 := false
 	add := func(where string, k spec.T, cd spec.Card, verb string) {
 		n++
 		kn := spec.KindName(k)
+		if number64 {
+			kn += "+number"
+		}
 		mname := fmt.Sprintf("Op%d", n)
 		req := &spec.Message{Name: mname + "Req"}
 		fld := spec.F("val_x", 1, k)
@@ -46,6 +50,9 @@ func PlacementFile(pkg, goName string, queryKinds []spec.T, cards []spec.Card, w
 			fld.Opt()
 		case spec.Repeated:
 			fld.Rep()
+		}
+		if number64 {
+			fld.Ann.Int64Enc = 2
 		}
 		pc := &PlaceCase{Where: where, Kind: kn, Card: cd.String(), Verb: verb, Svc: pkg + ".PlaceService", Method: mname, In: pkg + "." + req.Name, Out: pkg + ".PlaceResp", Field: "val_x"}
 		path := fmt.Sprintf("/o%d", n)
@@ -82,6 +89,17 @@ func PlacementFile(pkg, goName string, queryKinds []spec.T, cards []spec.Card, w
 				add("query", k, cd, v)
 			}
 		}
+	}
+	if withPath {
+		// URL-bound 64-bit fields that also carry int64_encoding=NUMBER (typed number in TS/OpenAPI)
+		number64 = true
+		for _, k := range []spec.T{spec.Int64, spec.Uint64} {
+			for _, v := range []string{"GET", "POST"} {
+				add("path", k, spec.Singular, v)
+				add("query", k, spec.Singular, v)
+			}
+		}
+		number64 = false
 	}
 	return f, cases
 }
